@@ -73,6 +73,8 @@ def build(reg, cfg):
     for c in sub3.contracts:
         if 'node loop body' in c.name: reg.add(relabel(c, 'as in C03'))
     for k, lc in sub3.loops.items(): reg.loops[k] = lc
+    import meshops
+    reg.add(meshops.replace_node_body_contract(PROP))
     lemmas(reg)
 
 
